@@ -41,7 +41,7 @@ class Walker:
                 from trie.exceptions import PerfectVisibility
                 # what a walker written as `except PerfectVisibility: finished` would conclude
                 self.says_done = isinstance(e, PerfectVisibility)
-                return C.exc_obs(e, with_attrs=False)
+                return C.exc_obs(e, with_attrs=False, fog=True)
             cached = None
             if self.use_cache:
                 try:
@@ -68,7 +68,7 @@ class Walker:
             try:
                 self.fog = self.fog.explore(prefix, node.sub_segments)
             except Exception as e:
-                return [[int(x) for x in prefix], HX.hnode_obs(node), C.exc_obs(e, with_attrs=False)]
+                return [[int(x) for x in prefix], HX.hnode_obs(node), C.exc_obs(e, with_attrs=False, fog=True)]
             if self.use_cache:
                 if node.sub_segments:
                     self.cache.add(prefix, node, node.sub_segments)
